@@ -1,14 +1,12 @@
 #!/bin/sh
 # tools_seeded.sh <seeded-id> <property> [seconds]
-# Applies /verif/seeded/<id>/patch.diff to /repo, runs the property's quick check, and
-# undoes the patch again. Prints the check's verdict. Never commits anything in /repo.
+# Runs the property's quick check against /repo with /verif/seeded/<id>/patch.diff applied to
+# copies of the files it touches (VERIF_PATCH: the build reads the patched copies, /repo itself
+# is not modified, so this can run beside other checks). Prints the check's verdict.
 id=$1; prop=$2; secs=${3:-60}
-cd /repo || exit 2
-if ! git diff --quiet; then echo "/repo has uncommitted changes"; exit 2; fi
-git apply /verif/seeded/$id/patch.diff || { echo "patch does not apply"; exit 2; }
-cd /verif && ./check $prop quick -seconds $secs > /tmp/seeded_$id_$prop.log 2>&1
+cd /verif || exit 2
+VERIF_PATCH=/verif/seeded/$id/patch.diff ./check $prop quick -seconds $secs > /tmp/seeded_${id}_$prop.log 2>&1
 code=$?
-cd /repo && git checkout -- . && git clean -fdq -- . >/dev/null 2>&1
-echo "seeded=$id property=$prop exit=$code $(grep -a -m1 '^VIOLATION\|^OK\|machinery' /tmp/seeded_$id_$prop.log | cut -c1-160)"
-grep -a -A2 -m1 '^VIOLATION' /tmp/seeded_$id_$prop.log | tail -2 | cut -c1-240
+echo "seeded=$id property=$prop exit=$code $(grep -a -m1 '^VIOLATION\|^OK\|machinery' /tmp/seeded_${id}_$prop.log | cut -c1-160)"
+grep -a -A2 -m1 '^VIOLATION' /tmp/seeded_${id}_$prop.log | tail -2 | cut -c1-240
 exit $code
